@@ -46,7 +46,11 @@ func (g *gen) value(depth int) interface{} {
 		n := g.r.Intn(4)
 		m := map[string]interface{}{}
 		for i := 0; i < n; i++ {
-			m[g.str()] = g.value(depth + 1)
+			k := g.str()
+			if g.r.Chance(25) { // keys with a meaning in JavaScript object literals / prototypes
+				k = g.r.Pick([]string{"__proto__", "constructor", "toString", "valueOf", "hasOwnProperty", "prototype", "__defineGetter__", "length", "0"})
+			}
+			m[k] = g.value(depth + 1)
 		}
 		return m
 	}
@@ -86,6 +90,9 @@ func (g *gen) validJSON(v interface{}) string {
 		var it []string
 		for k, e := range x {
 			it = append(it, g.validJSON(k)+":"+g.validJSON(e))
+			if g.r.Chance(8) { // duplicate member names are valid JSON (last one wins)
+				it = append(it, g.validJSON(k)+":"+g.validJSON(e))
+			}
 		}
 		return "{" + strings.Join(it, ",") + "}"
 	default:
